@@ -26,7 +26,6 @@ but is designed to be extended with additional link statistics in the future.
 """
 import struct
 import time
-from threading import current_thread
 from threading import Event
 from threading import Thread
 
@@ -146,8 +145,10 @@ class Latency:
         at regular intervals to measure and track latency statistics.
         """
         if self._ping_thread_instance is None or not self._ping_thread_instance.is_alive():
-            self._stop_event.clear()
-            self._ping_thread_instance = Thread(target=self._ping_thread)
+            # Each ping thread has its own stop event so that a stopped thread that
+            # has not yet ended can not be revived by a new start
+            self._stop_event = Event()
+            self._ping_thread_instance = Thread(target=self._ping_thread, args=(self._stop_event,))
             self._ping_thread_instance.start()
 
     def stop(self):
@@ -157,14 +158,14 @@ class Latency:
         This method stops the background thread and ceases sending further
         ping requests, halting latency measurement.
         """
+        # Do not wait for the thread to end: stop() is called from the disconnected
+        # callback, possibly by a thread that holds the send lock the ping thread is
+        # waiting for (link error reported while sending). The thread ends by itself
+        # the next time it checks its stop event.
         self._stop_event.set()
-        if self._ping_thread_instance is not None:
-            # The stop can come from the ping thread itself (link error while sending a ping)
-            if self._ping_thread_instance is not current_thread():
-                self._ping_thread_instance.join()
-            self._ping_thread_instance = None
+        self._ping_thread_instance = None
 
-    def _ping_thread(self, interval: float = 0.1) -> None:
+    def _ping_thread(self, stop_event, interval: float = 0.1) -> None:
         """
         Background thread method that sends a ping to the Crazyflie at regular intervals.
 
@@ -172,9 +173,10 @@ class Latency:
         until the stop event is set.
 
         Args:
+            stop_event (Event): Set to stop the thread.
             interval (float): The time (in seconds) to wait between ping requests. Default is 0.1 seconds.
         """
-        while not self._stop_event.is_set():
+        while not stop_event.is_set():
             self.ping()
             time.sleep(interval)
 
